@@ -88,7 +88,12 @@ def needs_quoting(string: str, allow_reserved: bool, allow_num: bool) -> bool:
         return False
 
     r = _re_ident_or_num if allow_num else _re_ident
-    isalnum = r.fullmatch(string)
+    isalnum = (
+        r.fullmatch(string)
+        # \w also matches numeric characters that are not decimal digits
+        # (e.g. superscripts), which the lexer does not accept in names
+        and (string[0] == '_' or string[0].isalpha() or string[0].isdecimal())
+    )
 
     string = string.lower()
 
